@@ -130,6 +130,11 @@ SLOTS = {
         ("(>= (n) 0)", 0),
         ("(< (n) 1)", 0),
         ("(> 1 (n))", 0),
+        # a quantified variable that shadows the action's own parameter
+        ("(exists (?x - t) (and (p ?x) (st ?x)))", 0),
+        # the same variable name quantified over a subtype here and over t in pre2#4 (the body is
+        # well-typed for either type)
+        ("(exists (?z - s) (p ?z))", 0),
     ],
     "pre2": [
         ("(st k0)", 1),
@@ -245,7 +250,7 @@ SLOT_NAMES = list(SLOTS) + ["init-"]
 QUICK_CORE = {
     "req": {1}, "types": {1, 3}, "constants": {1, 2}, "ftype": {1}, "tc": {1}, "objects": {1, 2},
     "par1": {1}, "par3": {1, 2},
-    "pre1": {1, 4, 5, 7, 8, 10, 12, 16, 18, 21, 24, 28}, "pre2": {2, 4}, "pre3": {1, 4, 6},
+    "pre1": {1, 4, 5, 7, 8, 10, 12, 16, 18, 21, 24, 28, 32, 33}, "pre2": {2, 4}, "pre3": {1, 4, 6},
     "eff1": {2, 4, 5, 7, 8, 10, 14, 15, 19, 20}, "eff2": {1, 2}, "eff3": {1, 3, 6},
     "goal": {1, 2, 6}, "init": {1, 4}, "init-": set(), "metric": {1, 2},
 }
